@@ -33,7 +33,7 @@ constexpr auto submdspan_static_extent() -> etl::size_t
     } else if constexpr (is_strided_slice<Sk>) {
         using ExtT    = typename Sk::extent_type;
         using StrideT = typename Sk::stride_type;
-        if constexpr (integral_constant_like<ExtT> and not integral_constant_like<StrideT> and ExtT() == 0) {
+        if constexpr (integral_constant_like<ExtT> and ExtT() == 0) {
             return 0;
         } else if constexpr (integral_constant_like<ExtT> and integral_constant_like<StrideT>) {
             return static_cast<etl::size_t>(1 + (de_ice(ExtT()) - 1) / de_ice(StrideT()));
